@@ -210,4 +210,49 @@ def run(tier, replay=None):
         if not same(i1, i2):
             chk.violation("pedigree and calling likelihood wrappers disagree for the same reads",
                           {**case, "calling": i1, "pedigree": i2}, "C04/alleles/wrappers")
+
+    # ---------------- the pedigree wrapper as the sampler uses it: one cache object for all individuals of a family
+    # (different ploidies, any listing order); every value it returns must be the mixture likelihood of that
+    # individual's genotype and own reads
+    from .c09 import ped_cache_factory
+    import itertools
+    n_fam = {"warm": 1, "quick": 8, "thorough": 60}[tier]
+    for fam in range(n_fam):
+        n_base = r.randint(1, 3)
+        n_alleles = [2] * n_base
+        haps = []
+        for _ in range(40):
+            h = G.gen_haplotype(r, n_alleles)
+            if h not in haps:
+                haps.append(h)
+            if len(haps) == r.choice([2, 3, 4]):
+                break
+        harr = np.array(haps, dtype=np.int8)
+        ploidies = [r.choice([2, 3, 4, 6]) for _ in range(r.randint(3, 5))]
+        if fam % 2 == 0:
+            ploidies.sort(reverse=True)
+        per = [G.gen_reads(r, n_alleles, r.randint(1, 5), haps=haps, zero_counts=True, style="encoded") for _ in ploidies]
+        cache = ped_cache_factory(ped_llk, per[0][0], per[0][1], harr)
+        if cache is None:
+            chk.count("family-cache:key-type-unknown")
+            break
+        todo = []
+        for s_, pl in enumerate(ploidies):
+            space = list(itertools.combinations_with_replacement(range(len(haps)), pl))
+            r.shuffle(space)
+            todo += [(s_, g) for g in space[:25]]
+        todo = todo + todo
+        r.shuffle(todo)
+        lines = [" ".join(["lik.alleles"] + G.reads_tokens(*per[s_]) + G.genotype_tokens(haps) + [str(a) for a in g]) for s_, g in todo]
+        for (s_, g), a, line in zip(todo, drv.ask(lines), lines):
+            m2 = llk_tag(C.frac_log(C.parse_rat(a.split()[1])))
+            rd, ct = per[s_]
+            got = llk_tag(ped_llk(rd, ct, harr, s_, np.array(g, dtype=np.int64), cache))
+            chk.count("family-cache")
+            chk.case(("family", fam, s_, g), len(set(ploidies)) > 1)
+            if not same(got, m2):
+                chk.violation("the pedigree likelihood (cache shared by the individuals of a family) is not the mixture likelihood of "
+                              "that individual's genotype and own reads",
+                              {"ploidies": ploidies, "sample": s_, "genotype": list(g), "haplotypes": haps, "impl": got, "model": m2,
+                               "counts": ct.tolist()}, "C04/pedigree/family-cache")
     return chk.finish()
